@@ -14,6 +14,20 @@ impl ByteCompiler<'_> {
     }
 
     fn continue_jump_record_actions(&self, node: Continue) -> Vec<JumpRecordAction> {
+        // `continue L` continues the iteration statement that `L` labels, possibly through further
+        // labels (`A: B: for (;;) { continue A; }`): the target is the first loop at or inside the
+        // statement that carries the label, not the labelled statement itself.
+        let labelled_target = node.label().and_then(|label| {
+            let labelled = self
+                .jump_info
+                .iter()
+                .rposition(|info| info.label() == Some(label))?;
+            self.jump_info[labelled..]
+                .iter()
+                .position(|info| info.is_loop())
+                .map(|offset| labelled + offset)
+        });
+
         let mut actions = Vec::default();
         for (i, info) in self.jump_info.iter().enumerate().rev() {
             let count = self.jump_info_open_environment_count(i);
@@ -31,7 +45,7 @@ impl ByteCompiler<'_> {
             }
 
             if let Some(label) = node.label() {
-                if info.label() == Some(label) {
+                if labelled_target.map_or(info.label() == Some(label), |target| target == i) {
                     actions.push(JumpRecordAction::Transfer { index: i as u32 });
                     break;
                 }
